@@ -1,3 +1,3 @@
 Require Import ExtrOcamlBasic.
-From Eupsv Require Import Base.Base Model.PathAlg Model.Setup Model.Expand Model.ExpandText Model.ExpandRe.
-Extraction "model.ml" keep_types setup expand_gen render expand_text_gen classify_text reexpand_text_gen unexpand_text.
+From Eupsv Require Import Base.Base Model.PathAlg Model.Setup Model.Expand Model.ExpandText Model.ExpandRe Model.ExpandOpt.
+Extraction "model.ml" keep_types setup expand_gen render expand_text_gen classify_text reexpand_text_gen unexpand_text reexpand_text_opt.
